@@ -343,6 +343,30 @@ def run(ctx):
             R.ob(row is not None and used[key] <= row["max"], "PANIC", "%s:%d" % (f.loc["f"], s["line"]), "PANIC|" + key,
                  "panic-capable site `%s` on the inscription decode path is neither guarded nor reviewed" % P.descriptor(f, s),
                  sample={"rule": "PANIC (decode path)", "site": P.descriptor(f, s)[:60], "status": "ledger"})
+    # "hex and base64 submissions produce identical transactions": the two request fields are read from the JSON text the same
+    # way.  A borrowed `&str` (or `&[u8]`) can only be produced by a JSON parser when the literal has no escape sequence - a
+    # legal spelling such as "\/" or "\u003d" then fails to deserialize, and the field's fallback turns it into "absent"
+    des = {}
+    for f_ in F.fns.values():
+        if not (f_.j.get("trait") or "").endswith("::Deserialize") or (f_.j.get("method") or "") != "deserialize" or not f_.blocks:
+            continue
+        st_ = (f_.j.get("self_ty") or f_.name)
+        for nm_ in ("RawBytes", "Base64Bytes"):
+            if st_.split("<")[0].endswith(nm_) or ("::" + nm_ + " as ") in f_.name or f_.name.startswith("<api::types::%s as" % nm_):
+                tys = set()
+                for g_ in [f_] + F.descendants(f_.id):
+                    for c_ in g_.calls():
+                        if not g_.is_cleanup(c_.bb) and (c_.method or "") == "deserialize" and (c_.trait or "").endswith("Deserialize"):
+                            tys.add((c_.self_ty or "?"))
+                des[nm_] = (f_, tys)
+    R.floor("payload_field_deserializers", len(des), 2)
+    if len(des) == 2:
+        (fa, ta), (fb, tb) = des["RawBytes"], des["Base64Bytes"]
+        borrowed = sorted(t for t in (ta | tb) if t.startswith("&"))
+        R.ob(ta == tb and not borrowed, "SIBLING", fb.where(), "SIBLING|payload-fields|deserialize-as",
+             "the hex field is read from JSON as %s and the base64 field as %s%s: the two encodings of one payload are not accepted for the same "
+             "request texts" % (sorted(ta), sorted(tb), " (a borrowed string rejects every literal that contains an escape)" if borrowed else ""),
+             sample={"rule": "SIBLING", "hex_field": sorted(ta), "base64_field": sorted(tb)})
     return R
 
 
